@@ -171,20 +171,52 @@ def traverse_facts(ctx, cq):
         F["entry.call"] = und("no call of the traversal found outside itself", fn.node, fn)
     else:
         bad = []
+        flat = None
         for f, call in entries:
             st = ctx.prog.enclosing_stmt(call)
             arg = norm(call.args[0]) if len(call.args) == 1 and not call.keywords else "?"
             stored = isinstance(st, ast.Assign) and len(st.targets) == 1 and isinstance(st.targets[0], ast.Subscript) and const_str(st.targets[0].slice) == "file tree" \
                 and (st.value is call or (isinstance(st.value, ast.Dict) and len(st.value.values) == 1 and st.value.values[0] is call))
             if arg != "%s.path" % f.self_name:
+                loop = _enclosing_for(ctx, f, call)
+                if loop is not None and isinstance(loop.target, ast.Name) and arg == loop.target.id and _is_flat_sorted_listing(ctx, f, loop.iter):
+                    flat = (f, call, loop)
+                    continue
                 bad.append("%s calls it on `%s`, not on the content root" % (f.name, arg))
             elif C.in_loop(ctx, f, call):
-                bad.append("%s calls it inside a loop: the order of the v1 entries / pieces is that loop's, not the tree's" % f.name)
+                bad.append("%s calls it inside a loop" % f.name)
             elif not stored:
                 bad.append("%s does not store its result as info['file tree'] (`%s`)" % (f.name, norm(st)[:80]))
-        F["entry.call"] = Fact("; ".join(bad) if bad else "entered on the content root, outside any loop, result stored as info['file tree']", entries[0][1], entries[0][0])
+        if flat is not None and not bad:
+            # the order of the v1 entries / pieces is then the order of that list, not the level-by-level order of the tree
+            F["entry.call"] = Fact(FLAT_ENTRY, flat[1], flat[0])
+        elif bad or flat is not None:
+            # an unrecognised way of driving the traversal: nothing can be said about the order it produces
+            F["entry.call"] = Fact("?" + "; ".join(bad), entries[0][1], entries[0][0])
+        else:
+            F["entry.call"] = Fact("entered on the content root, outside any loop, result stored as info['file tree']", entries[0][1], entries[0][0])
     F["single.key"] = single_file_key(ctx, cls, fn)
     return F, fn, fb, sv, hv
+
+
+FLAT_ENTRY = "called once per file of a flat listing sorted by full path"
+
+
+def _enclosing_for(ctx, f, node):
+    p = ctx.prog.parent.get(node)
+    while p is not None and p is not f.node:
+        if isinstance(p, ast.For):
+            return p
+        p = ctx.prog.parent.get(p)
+    return None
+
+
+def _is_flat_sorted_listing(ctx, f, it):
+    """The iterable is (an attribute / local holding) a list that was produced by sorted() over whole paths."""
+    from tfsa.flow import Flow, walk_terms
+    fl = Flow(ctx.prog, ctx.res)
+    t = fl.term(it, f)
+    return any(x[0] == "ext" and x[1] == "builtins.sorted" for x in walk_terms(t)) and not any(x[0] == "ext" and x[1] == "os.listdir" and False for x in walk_terms(t))
 
 
 class _DropAbspath(ast.NodeTransformer):
